@@ -299,12 +299,54 @@ func (g *Gen) guardedAccessors(prop string) []string {
 				}
 			}
 		}
+		if !hit && g.mayRelock(f, heldCallee[k]) {
+			hit = true
+		}
 		if hit {
 			out = append(out, k)
 		}
 	}
 	sort.Strings(out)
 	return out
+}
+
+// mayRelock: f acquires (or holds by precondition) a mutex of a class that one of its static callees may acquire:
+// the no-relock obligations of f are part of the pass even if f touches no guarded field.
+func (g *Gen) mayRelock(f *ssa.Function, heldByContract bool) bool {
+	own := map[string]bool{}
+	for _, b := range f.Blocks {
+		for _, in := range b.Instrs {
+			if ci, ok := in.(ssa.CallInstruction); ok {
+				if cl := g.acquiredClass(ci.Common()); cl != "" {
+					own[cl] = true
+				}
+			}
+		}
+	}
+	if len(own) == 0 && !heldByContract {
+		return false
+	}
+	for _, b := range f.Blocks {
+		for _, in := range b.Instrs {
+			ci, ok := in.(ssa.CallInstruction)
+			if !ok {
+				continue
+			}
+			if _, isGo := in.(*ssa.Go); isGo {
+				continue
+			}
+			cal := ci.Common().StaticCallee()
+			if cal == nil || cal.Blocks == nil || g.acquiredClass(ci.Common()) != "" {
+				continue
+			}
+			for cl := range g.mayAcquire(cal) {
+				if own[cl] || heldByContract {
+					return true
+				}
+			}
+		}
+	}
+	return false
 }
 
 // guardScan prints, for every struct type of the package with a mutex field, which functions read and write which
@@ -552,4 +594,126 @@ func (g *Gen) deepUse(in ssa.Instruction, prop string) bool {
 		}
 	}
 	return false
+}
+
+// ---- no re-locking through a callee --------------------------------------------------------------------------------
+//
+// sync.RWMutex is not re-entrant, and a read lock must not be taken again by a thread that already holds it (a writer
+// queued between the two acquisitions blocks the second one for ever: "this prohibits recursive read locking", package
+// sync). Inside one function the acquire obligations see that; across a call they do not, because a callee is verified
+// as entered with no lock held (A-LOCKENTRY). So that assumption is made an obligation at the call: for every mutex
+// the caller has acquired (or holds by precondition) whose CLASS (struct type + field) the callee may acquire - itself
+// or through static callees, transitively - the caller does not hold it at the call. Class level: holding one node's
+// mutex while calling something that locks another node's is flagged too (that nesting has no defined order).
+// Calls through interfaces and function values are not followed.
+
+func (g *Gen) lockClassOf(recv ssa.Value) string {
+	switch v := recv.(type) {
+	case *ssa.FieldAddr:
+		pt, ok := v.X.Type().Underlying().(*types.Pointer)
+		if !ok {
+			return ""
+		}
+		named, ok := types.Unalias(pt.Elem()).(*types.Named)
+		if !ok {
+			return ""
+		}
+		st, ok := named.Underlying().(*types.Struct)
+		if !ok {
+			return ""
+		}
+		return named.Obj().Name() + "." + st.Field(v.Field).Name()
+	case *ssa.Global:
+		return "global." + v.Name()
+	}
+	return ""
+}
+
+func (g *Gen) acquiredClass(c *ssa.CallCommon) string {
+	f := c.StaticCallee()
+	if f == nil || f.Pkg == nil || f.Pkg.Pkg.Path() != "sync" || len(c.Args) == 0 || f.Signature.Recv() == nil {
+		return ""
+	}
+	rt := f.Signature.Recv().Type().String()
+	if rt != "*sync.Mutex" && rt != "*sync.RWMutex" {
+		return ""
+	}
+	switch f.Name() {
+	case "Lock", "RLock", "TryLock", "TryRLock":
+		return g.lockClassOf(c.Args[0])
+	}
+	return ""
+}
+
+// mayAcquire: classes of the mutexes f may acquire, itself or through static callees (go statements excluded).
+func (g *Gen) mayAcquire(f *ssa.Function) map[string]bool {
+	if g.mayAcq == nil {
+		g.mayAcq = map[*ssa.Function]map[string]bool{}
+		var fns []*ssa.Function
+		for _, fn := range g.funcsByKey {
+			if fn.Blocks != nil {
+				fns = append(fns, fn)
+				g.mayAcq[fn] = map[string]bool{}
+			}
+		}
+		for changed := true; changed; {
+			changed = false
+			for _, fn := range fns {
+				set := g.mayAcq[fn]
+				for _, b := range fn.Blocks {
+					for _, in := range b.Instrs {
+						ci, ok := in.(ssa.CallInstruction)
+						if !ok {
+							continue
+						}
+						if _, isGo := in.(*ssa.Go); isGo {
+							continue
+						}
+						if cl := g.acquiredClass(ci.Common()); cl != "" {
+							if !set[cl] {
+								set[cl] = true
+								changed = true
+							}
+							continue
+						}
+						if cal := ci.Common().StaticCallee(); cal != nil {
+							for cl := range g.mayAcq[cal] {
+								if !set[cl] {
+									set[cl] = true
+									changed = true
+								}
+							}
+						}
+					}
+				}
+			}
+		}
+	}
+	return g.mayAcq[f]
+}
+
+// guardNoRelock: obligations at a call of a package function.
+func (fv *FuncVC) guardNoRelock(callee *ssa.Function, pos token.Pos) {
+	gp := fv.g.guardProps()
+	if len(gp) == 0 || callee == nil || len(fv.lockClass) == 0 {
+		return
+	}
+	acq := fv.g.mayAcquire(callee)
+	if len(acq) == 0 {
+		return
+	}
+	h := ""
+	for _, id := range fv.lockIDs {
+		cl := fv.lockClass[id]
+		if cl == "" || !acq[cl] {
+			continue
+		}
+		if h == "" {
+			h = fv.heapGet("LOCK", "(Array Int Int)")
+		}
+		fv.relockN++
+		fv.oblige("guarded", fmt.Sprintf("no-relock#%s#%d", funcKey(callee), fv.relockN), gp, "(= (select "+h+" "+id+") 0)",
+			fmt.Sprintf("%s may acquire a %s (itself or in a callee): the caller must not hold its own %s here (sync mutexes are not re-entrant; a second read lock deadlocks behind a queued writer)", funcKey(callee), cl, cl),
+			fv.posStr(pos))
+	}
 }
